@@ -227,6 +227,14 @@ def noise_from_scratch(st):
                 partial_visits=int((real_visit & ~w).sum()))
 
 
+def qclass(k):
+    """quantity class used in signatures (site, not the individual statistic)"""
+    for p in ("suffstat", "param", "personalize", "nll_attach"):
+        if k.startswith(p):
+            return p
+    return k
+
+
 def run_config(run, cfg, seed, fills, pads, personalize, n_ind=8):
     import torch
     from harness import synth
@@ -253,7 +261,7 @@ def run_config(run, cfg, seed, fills, pads, personalize, n_ind=8):
             continue
         run.count("fill", repr(fill))
         for k, v in ref.items():
-            q = k.split(":", 1)[1] if k.startswith("it") else k
+            q = qclass(k.split(":", 1)[1] if k.startswith("it") else k)
             run.case(("garbage", kind, noise, src, seed, repr(fill), k))
             run.count("oracle", "garbage-under-mask")
             if k not in got or not same_bits(v, got[k]):
@@ -298,7 +306,30 @@ def run_config(run, cfg, seed, fills, pads, personalize, n_ind=8):
             else:
                 ok = close(v, g, 1e-6)
             if not ok:
-                run.fail(f"padding-amount:{k}", f"{kind}/{noise}: {k} changes with {pad} extra padded visits (fill {fill!r})", dict(inp, quantity=k))
+                run.fail(f"padding-amount:{qclass(k)}", f"{kind}/{noise}: {k} changes with {pad} extra padded visits (fill {fill!r})", dict(inp, quantity=k))
+    # (e) hiding one feature of a fully observed visit must not change the model at the other entries of that visit
+    if n_feat > 1:
+        ds = Dataset(data)
+        hidden = 0
+        for i in range(ds.n_individuals):
+            for j in range(nv[i]):
+                if bool((ds.mask[i, j] == 1).all()):
+                    ds.mask[i, j, 0] = 0
+                    hidden += 1
+                    break
+        if hidden:
+            inp = dict(base, scenario="hide-one-feature")
+            try:
+                q, _ = state_quantities(model, ds)
+                keep = ds.mask.bool()
+                run.case(("hide-one-feature", kind, noise, src, seed))
+                run.count("oracle", "hide-one-feature")
+                if not torch.equal(q["model"][keep], q0["model"][keep]):
+                    d = float((q["model"][keep] - q0["model"][keep]).abs().max())
+                    run.fail("model-at-observed:depends-on-other-missing-entries", f"{kind}/{noise}: the model at observed entries changes (max {d}) when "
+                             "another feature of the same visit becomes missing", inp)
+            except Exception as e:
+                run.fail(f"hide-one-feature:raises:{type(e).__name__}", f"{kind}: {type(e).__name__}: {e}", inp)
     # (c) one individual alone against its row in the batch
     for i in [j for j in (1, 2, 3) if j < ds0.n_individuals]:
         inp = dict(base, scenario="alone", individual=i)
@@ -317,7 +348,7 @@ def run_config(run, cfg, seed, fills, pads, personalize, n_ind=8):
             if k == "model":
                 b = b[:, :v.shape[1]]
             if not close(v, b, 1e-5):
-                run.fail(f"batch-vs-alone:{k}", f"{kind}/{noise}: {k} of individual {i} alone differs from its row in the batch", dict(inp, quantity=k))
+                run.fail(f"batch-vs-alone:{qclass(k)}", f"{kind}/{noise}: {k} of individual {i} alone differs from its row in the batch", dict(inp, quantity=k))
     # (d) noise estimate from scratch, counts
     for partial in (True, False):
         inp = dict(base, scenario="noise", partial_visits=partial)
@@ -364,3 +395,37 @@ def run_oracle(run, thorough=False):
             f = fills if (thorough or ci < 3) else [float("nan"), 1e30]
             run_config(run, cfg, seed, f, pads, personalize=(thorough or ci in (0, 2)), n_ind=8 if not thorough else 12)
     run.sample(dict(kind="pipeline-oracle", configs=[list(c) for c in CONFIGS], fills=[repr(f) for f in fills], pads=[list(map(repr, p)) for p in pads]))
+
+
+def put_data_tie(run, n):
+    """T2 for put_data_variables: weights of `t` and `y` produced by the real method on random masks, compared inside Coq
+    with Masked/Pipeline.v put_t / put_y."""
+    import types
+    import torch
+    from harness import synth
+    model = synth.make_model("logistic", 3, None, "gaussian-scalar")
+    cases, meta = [], []
+    for c in range(n):
+        r = run.rng("put-data", c)
+        ni, nvis, nf = r.randint(1, 3), r.randint(1, 4), r.randint(1, 3)
+        p = r.choice([0.2, 0.5, 0.8])
+        mask = torch.tensor([[[0.0 if r.random() < p else 1.0 for _ in range(nf)] for _ in range(nvis)] for _ in range(ni)])
+        ds = types.SimpleNamespace(values=torch.zeros(ni, nvis, nf), mask=mask, timepoints=torch.zeros(ni, nvis))
+        st = {}
+        type(model).put_data_variables(model, st, ds)
+        tw, yw = st["t"].weight, st["y"].weight
+        run.case(("put-data", ni, nvis, nf, tuple(mask.reshape(-1).tolist())), nontrivial=bool((mask == 0).any()))
+        run.count("oracle", "put-data-tie")
+        lst = lambda xs: "[" + "; ".join(f"{int(x)}%N" for x in xs) + "]"  # noqa: E731
+        cases.append(f"([{nf}; {nvis}; {ni}], {lst(mask.reshape(-1).tolist())}, {lst(tw.reshape(-1).tolist())}, {lst(yw.reshape(-1).tolist())}, "
+                     f"[{'; '.join(str(int(x)) for x in reversed(tw.shape))}])")
+        meta.append(dict(scenario="put-data", mask=mask.tolist(), t_weight=tw.tolist()))
+    hdr = ("From Coq Require Import List NArith ZArith Bool.\nFrom Leaspy Require Import Base.Atoms Masked.Weighted Masked.Pipeline.\n"
+           "Import ListNotations.\n")
+    chk = ("(fun c => match c with (rs, m, tw, yw, ts) => let mk := of_flat 0%N rs m in "
+           "list_eqb N.eqb (to_flat (mask_any_ft mk)) tw && shape_eqb (shape (mask_any_ft mk)) ts && "
+           "list_eqb N.eqb (to_flat (tmap to_bool_weight mk)) yw end)")
+    bad = run.vm_bad_indices("putdata", hdr, "list nat * list N * list N * list N * list nat", cases, chk)
+    for b in bad or []:
+        run.fail("put-data-variables:weights-differ-from-model", "weights given to t / y by put_data_variables differ from t <- mask.any(feature), y <- mask",
+                 meta[b])
